@@ -155,6 +155,50 @@ func genDid(c *Ctx) {
 			c.Emit("did/key-"+g.name, WList(WStr("key"), WStr(g.name)), WList(WBool(fromOK), WBool(parseSame), WBool(keySame)))
 		}
 	}
+	// ECDSA keys over the secp256k1 curve (FromPubKey coerces them to the secp256k1 key type): random ones, and
+	// ones whose X or Y coordinate has a leading zero byte (one key in 128)
+	{
+		want := map[string]int{"plain": nkeys, "x-leading-zero": 2, "y-leading-zero": 2}
+		for tries := 0; tries < 6000 && (want["plain"] > 0 || want["x-leading-zero"] > 0 || want["y-leading-zero"] > 0); tries++ {
+			priv, err := ecdsa.GenerateKey(secp256k1.S256(), rd)
+			if err != nil {
+				continue
+			}
+			class := "plain"
+			if len(priv.X.Bytes()) < 32 {
+				class = "x-leading-zero"
+			} else if len(priv.Y.Bytes()) < 32 {
+				class = "y-leading-zero"
+			}
+			if want[class] <= 0 {
+				continue
+			}
+			want[class]--
+			_, pub, err := crypto.ECDSAKeyPairFromKey(priv)
+			if err != nil {
+				continue
+			}
+			fromOK, parseSame, keySame := false, false, false
+			func() {
+				defer func() { recover() }()
+				d, err := did.FromPubKey(pub)
+				if err != nil {
+					return
+				}
+				fromOK = true
+				if d2, err := did.Parse(d.String()); err == nil && d2 == d {
+					parseSame = true
+					if pk, err := d2.PubKey(); err == nil {
+						if sp, ok := pk.(*crypto.Secp256k1PublicKey); ok {
+							k := (*secp256k1.PublicKey)(sp)
+							keySame = k.X().Cmp(priv.X) == 0 && k.Y().Cmp(priv.Y) == 0
+						}
+					}
+				}
+			}()
+			c.Emit("did/key-ecdsa-secp256k1/"+class, WList(WStr("key"), WStr("ecdsa-secp256k1")), WList(WBool(fromOK), WBool(parseSame), WBool(keySame)))
+		}
+	}
 	// DIDs equal exactly when keys are
 	for i := range pool {
 		for j := range pool {
